@@ -190,6 +190,85 @@ def run(ctx, chk):
                                                                 if h_ in prog.funcs and prog.funcs[h_].internal and h_ != "_cbor_safe_signaling_add")
     chk.floor("C20.signalling", "signalling adds in cbor_serialized_size", nss, 4)
 
+    # ---- the guard helpers mean what their callers take them to mean
+    chk.rule("C20.guard-semantics", "_cbor_safe_to_add answers true only on a path that establishes, on the full-width parameters "
+                                    "themselves, that their sum did not wrap (sum >= operand, or the 64-bit checked-add intrinsic); "
+                                    "_cbor_safe_to_multiply answers true only where an operand is <= 1, the bit lengths of the two "
+                                    "parameters add up to at most 64, or the 64-bit checked-multiply intrinsic reports no overflow")
+    A0, A1 = ("arg", 0), ("arg", 1)
+    SUM = (("op", "add", "i64", A0, A1), ("op", "add", "i64", A1, A0))
+
+    def strip_bool(t):
+        neg = False
+        while isinstance(t, tuple) and t[0] in ("cast", "not"):
+            if t[0] == "not":
+                neg = not neg
+                t = t[1]
+            else:
+                t = t[3]
+        return t, neg
+
+    def no_wrap_add(t, truth, pa):
+        """does `t == truth` imply that arg0 + arg1 does not wrap?"""
+        t, neg = strip_bool(t)
+        truth = truth != neg
+        if isinstance(t, tuple) and t[0] == "icmp" and len(t) == 4:
+            l, r = t[2], t[3]
+            if l in SUM and r in (A0, A1):
+                return (t[1] == "uge" and truth) or (t[1] == "ult" and not truth)
+            if r in SUM and l in (A0, A1):
+                return (t[1] == "ule" and truth) or (t[1] == "ugt" and not truth)
+        if isinstance(t, tuple) and t[0] == "xv" and t[2] == (1,) and isinstance(t[1], tuple) and t[1][0] == "call":
+            ev = [e for e in pa.events if e.kind == "call" and e.res == t[1]]
+            if ev and t[1][1] == "llvm.uadd.with.overflow.i64" and set(ev[0].args) == {A0, A1}:
+                return not truth      # overflow bit false
+        return False
+
+    def no_wrap_mul(t, truth, pa):
+        t, neg = strip_bool(t)
+        truth = truth != neg
+        if isinstance(t, tuple) and t[0] == "icmp" and len(t) == 4:
+            # an operand is 0 or 1
+            for x in (A0, A1):
+                if t[2] == x and P.is_const(t[3]):
+                    c = t[3][1]
+                    if (t[1] == "ule" and c <= 1 and truth) or (t[1] == "ult" and c <= 2 and truth) or (t[1] == "eq" and c in (0, 1) and truth) or \
+                            (t[1] == "ugt" and c <= 1 and not truth) or (t[1] == "uge" and c <= 2 and not truth):
+                        return True
+            # bit lengths add up to at most the width
+            l, r = t[2], t[3]
+            if isinstance(l, tuple) and l[0] == "op" and l[1] == "add" and P.is_const(r):
+                hb = [x for x in (l[3], l[4]) if isinstance(x, tuple) and x[0] == "call" and x[1] == "_cbor_highest_bit"]
+                if len(hb) == 2:
+                    args_ = set()
+                    for h_ in hb:
+                        ev = [e for e in pa.events if e.kind == "call" and e.res == h_]
+                        if ev:
+                            args_.add(ev[0].args[0])
+                    if args_ == {A0, A1}:
+                        return (t[1] == "ule" and r[1] <= 64 and truth) or (t[1] == "ult" and r[1] <= 65 and truth) or \
+                               (t[1] == "ugt" and r[1] <= 64 and not truth) or (t[1] == "uge" and r[1] <= 65 and not truth)
+        if isinstance(t, tuple) and t[0] == "xv" and t[2] == (1,) and isinstance(t[1], tuple) and t[1][0] == "call":
+            ev = [e for e in pa.events if e.kind == "call" and e.res == t[1]]
+            if ev and t[1][1] == "llvm.umul.with.overflow.i64" and set(ev[0].args) == {A0, A1}:
+                return not truth
+        return False
+    ngs = 0
+    for gname, witness in (("_cbor_safe_to_add", no_wrap_add), ("_cbor_safe_to_multiply", no_wrap_mul)):
+        gf = prog.fn(gname)
+        for k, pa in enumerate(cache.get(gname)):
+            r = pa.ret
+            if r == ("c", 0):
+                continue
+            ngs += 1
+            ok = any(witness(t, truth, pa) for t, truth, _ in pa.facts) or (not is_const(r) and witness(r, True, pa))
+            chk.ob("C20.guard-semantics", "%s path %d: 'safe' is answered only with a no-wrap witness on the parameters" % (gname, k), ok,
+                   "%s:%d" % (gf.file, gf.line), fn=gname, key="guardsem:%s:%d" % (gname, k),
+                   detail="" if ok else "returns %s on a path whose facts %s do not establish that the full-width operation cannot wrap (e.g. a "
+                                        "narrower intrinsic, a test on truncated operands)" % (DR.fmt_term(r), [DR.fmt_term(t) for t, _tr, _ in pa.facts][:4]),
+                   path=pa.block_lines() if not ok else None)
+    chk.floor("C20.guard-semantics", "answering paths of the two guard helpers", ngs, 3)
+
     # ---- allocation sizes
     nal = 0
     for f in prog.lib_funcs():
